@@ -599,6 +599,8 @@ def reach_formula(b, S, block, stack=(), depth=0):
             # a test delegated to a predicate function the reviewed tree does not know (a long condition extracted into a
             # helper): the helper's own return condition, with its parameters replaced by the operands of the call
             hf = helper_formula(b, S, resolve_copy(b, d["l"]))
+            if hf is None:
+                hf = combinator_formula(b, S, resolve_copy(b, d["l"]))
             if hf is not None:
                 vals = [v for v, bb in t["ts"] if bb == taken]
                 is_other = taken == t["o"] and not vals
@@ -634,6 +636,99 @@ def reach_formula(b, S, block, stack=(), depth=0):
     if any(t is True for t in terms):
         return True
     return terms[0] if len(terms) == 1 else ["or"] + terms
+
+
+_cfA = None
+
+
+def _single_call_def(b, l):
+    call = None
+    n = 0
+    for blk in b.blocks:
+        if blk["cleanup"]:
+            continue
+        for s_ in blk["s"]:
+            if s_["k"] == "assign" and not s_["p"]["p"] and s_["p"]["l"] == l:
+                n += 1
+        t = blk["t"]
+        if t["k"] == "call" and t.get("dest") and not t["dest"]["p"] and t["dest"]["l"] == l:
+            call = t
+            n += 1
+    return call if n == 1 else None
+
+
+def _closure_of_local(b, l):
+    for blk in b.blocks:
+        for s_ in blk["s"]:
+            if s_["k"] == "assign" and not s_["p"]["p"] and s_["p"]["l"] == l and s_["rv"]["r"] == "agg" and s_["rv"].get("kind") == "closure":
+                return s_["rv"].get("cl")
+    return None
+
+
+def combinator_formula(b, S, l):
+    """a bool obtained from an Option with a predicate closure -- `o.is_some_and(|x| P(x))`, `o.map_or(false, |x| P(x))`,
+    `o.map(|x| P(x)).unwrap_or(false)` (and the `true` / `is_none_or` duals) -- as the formula the equivalent `if let Some(x) = o
+    { P(x) } else { default }` has: (o is Some) and P(o), resp. (o is not Some) or P(o).  None for anything else"""
+    global _cfA
+    call = _single_call_def(b, l)
+    if call is None:
+        return None
+    nm = mir.strip_generics((call.get("res") or "").lstrip("?"))
+    recv = cl = None
+    default = None
+    args = call.get("args") or []
+    if nm.endswith("Option::is_some_and") and len(args) == 2:
+        recv, cl, default = args[0], args[1], False
+    elif nm.endswith("Option::is_none_or") and len(args) == 2:
+        recv, cl, default = args[0], args[1], True
+    elif nm.endswith("Option::map_or") and len(args) == 3 and args[1].get("k") in ("true", "false"):
+        recv, cl, default = args[0], args[2], args[1]["k"] == "true"
+    elif nm.endswith("Option::unwrap_or") and len(args) == 2 and args[1].get("k") in ("true", "false"):
+        ip = mir.op_place(args[0])
+        inner = _single_call_def(b, ip["l"]) if ip is not None and not ip["p"] else None
+        if inner is not None and mir.strip_generics((inner.get("res") or "").lstrip("?")).endswith("Option::map") and len(inner.get("args") or []) == 2:
+            recv, cl, default = inner["args"][0], inner["args"][1], args[1]["k"] == "true"
+    if recv is None:
+        return None
+    cp = mir.op_place(cl)
+    cid = _closure_of_local(b, cp["l"]) if cp is not None and not cp["p"] else None
+    prog = mir.prog()
+    cb = prog.bodies.get(cid) if cid else None
+    if cb is None or not cb.locals or cb.locals[0]["ty"] != "bool" or len(cb.blocks) > 40:
+        return None
+    if _cfA is None:
+        _cfA = sym.Analyzer(prog, opaque=[r".*"])
+    try:
+        Sc = _cfA.summary(cid)
+        P = value_formula(cb, Sc, 0) if Sc is not None else None
+    except RecursionError:
+        P = None
+    if P is None:
+        return None
+    rdesc = op_desc(b, S, recv)
+    # captured variables of the closure: described by what was stored into the closure value
+    caps = {}
+    for blk in b.blocks:
+        for s_ in blk["s"]:
+            if s_["k"] == "assign" and not s_["p"]["p"] and s_["p"]["l"] == cp["l"] and s_["rv"]["r"] == "agg" and s_["rv"].get("kind") == "closure":
+                for i, o in enumerate(s_["rv"].get("ops") or []):
+                    caps[i] = op_desc(b, S, o)
+
+    def sub(txt):
+        txt = re.sub(r"\barg1\.#(\d+)", lambda m: caps.get(int(m.group(1)), m.group(0)), txt)
+        return re.sub(r"\barg2\b", rdesc, txt)
+
+    def rec(f):
+        if f is True or f is False:
+            return f
+        if f[0] in ("and", "or"):
+            return [f[0]] + [rec(x) for x in f[1:]]
+        if f[0] == "e":
+            return ["e", sub(f[1]), [sub(v) for v in f[2]], f[3]]
+        return ["b", sub(f[1]), f[2]]
+    some = ["e", "discr(%s)" % rdesc, ["Some"], True]
+    Pc = rec(P)
+    return ["or", neg(some), Pc] if default else ["and", some, Pc]
 
 
 _hf_cache = {}
@@ -731,9 +826,19 @@ def equivalent(f1, f2, limit=300000):
         n *= len(dom)
         if n > limit:
             return None
+    # an Option reached through another Option (`a.b` where `a` is an Option): `a.b` is Some only if `a` is Some.  Assignments that
+    # contradict this cannot occur (the flattened `a.as_ref().and_then(|x| x.b.as_ref())` tests only the inner one)
+    impl = []
+    opt = [k for k in keys if k[0] == "e" and re.fullmatch(r"discr\([\w.]+\)", k[1]) and set(subs[k]) <= {"Some"}]
+    for q in opt:
+        for p_ in opt:
+            if p_ is not q and q[1][6:-1].startswith(p_[1][6:-1] + "."):
+                impl.append((q, p_))
     sat1 = sat2 = False
     for combo in itertools.product(*doms):
         env = dict(zip(keys, combo))
+        if any(env[q] == "Some" and env[p_] != "Some" for q, p_ in impl):
+            continue
         v1, v2 = _eval(f1, env), _eval(f2, env)
         sat1 |= v1
         sat2 |= v2
@@ -844,6 +949,10 @@ def value_formula(b, S, l, depth=0, stack=()):
         if t["k"] == "call" and not t["dest"]["p"] and t["dest"]["l"] == l:
             if not t.get("res"):
                 return None
+            cf = combinator_formula(b, S, l) if depth < 6 else None
+            if cf is not None:
+                alts.append(_and(reach_formula(b, S, bi), cf))
+                continue
             dsc, pos = canon_test(mir.strip_generics(t["res"].lstrip("?")), ", ".join(op_desc(b, S, a) for a in t["args"]))
             a = _atom(dsc)
             if not pos:
